@@ -1,8 +1,8 @@
 """C13 - equality and hashing form a consistent contract across classes and routes."""
 from hypothesis import strategies as st
 
-from vf.engine import Sub, require, bitstring_module
-from vf.common import (bits_st, bits_of_len, cls_st, mk, attempt, is_raised, lenbucket, CLASSES, IMMUTABLE, MUTABLE, STREAMS,
+from vf.engine import Sub, require, bitstring_module, HarnessError
+from vf.common import (cls_of, bits_st, bits_of_len, cls_st, mk, attempt, is_raised, lenbucket, CLASSES, IMMUTABLE, MUTABLE, STREAMS,
                        make_promotable, promo_ok, PROMO_KINDS, MEM_ROUTES, build_route)
 from vf import files
 
@@ -47,7 +47,68 @@ def operand_st(draw, bits, routes=ALL_ROUTES):
     return {'cls': cls, 'bits': bits, 'route': r, 'salt': salt, 'pos': pos}
 
 
+VIAS = ['reverse', 'invert', 'rol', 'ror', 'byteswap', 'append_del', 'setbit', 'ixor', 'ilshift_ior', 'replace_none', 'overwrite_same']
+
+
+def build_via(o):
+    """an immutable object whose history is: a hashed immutable source -> a mutable copy -> one in-place edit that turns it into o['bits'] -> frozen again.
+    Whatever was remembered for the source (hash, flags) must not survive into the result."""
+    bs = bitstring_module()
+    bits, via = o['bits'], o['via']
+    n = len(bits)
+    flip = ''.join('1' if c == '0' else '0' for c in bits)
+    src = {'reverse': bits[::-1], 'invert': flip, 'rol': bits[-1:] + bits[:-1], 'ror': bits[1:] + bits[:1], 'append_del': bits, 'replace_none': bits, 'overwrite_same': bits,
+           'byteswap': ''.join(reversed([bits[i:i + 8] for i in range(0, n - n % 8, 8)])) + bits[n - n % 8:], 'setbit': (('1' if bits[:1] == '0' else '0') + bits[1:]) if n else '',
+           'ixor': flip, 'ilshift_ior': bits}[via]
+    frozen_src = cls_of(o['cls'])(bin=src) if o['salt'] % 2 else cls_of(o['cls'])('0b' + src if src else '')
+    hash(frozen_src)
+    m = (bs.BitArray if o['salt'] % 3 else bs.BitStream)(frozen_src)
+    if n:
+        if via == 'reverse':
+            m.reverse()
+        elif via == 'invert':
+            m.invert()
+        elif via == 'rol':
+            m.rol(1)
+        elif via == 'ror':
+            m.ror(1)
+        elif via == 'byteswap':
+            if n >= 8:
+                m.byteswap(0, 0, n - n % 8)
+        elif via == 'append_del':
+            m.append('0b1')
+            del m[-1:]
+        elif via == 'setbit':
+            m[0] = bits[0] == '1'
+        elif via == 'ixor':
+            m ^= bs.Bits(bin='1' * n)
+        elif via == 'ilshift_ior':
+            m <<= n
+            m |= bs.Bits(bin=bits)
+        elif via == 'replace_none':
+            m.replace('0b1', '0b1')
+        elif via == 'overwrite_same':
+            m.overwrite(bs.Bits(bin=bits[:1]), 0)
+    x = cls_of(o['cls'])(m)
+    if x.bin != bits:
+        raise HarnessError(f'history route {via} built {x.bin[:40]!r} instead of {bits[:40]!r}')
+    if o['pos'] and o['cls'] in STREAMS:
+        x.pos = o['pos']
+    return x
+
+
 def build(o, tmp):
+    if o.get('via'):
+        # the edits are written with msb0 positions: build under msb0, whatever the ambient mode of the case (like the positional routes)
+        opt = bitstring_module().options
+        was = opt.lsb0
+        if was:
+            opt.lsb0 = False
+        try:
+            return build_via(o)
+        finally:
+            if was:
+                opt.lsb0 = True
     if o['route'] in files.FILE_ROUTES:
         x = files.build_file_route(o['cls'], o['bits'], o['route'], o['salt'], tmp)
     else:
@@ -187,6 +248,10 @@ def hash_case(draw, tier):
     x = draw(operand_st(a))
     y = draw(operand_st(b))
     x['cls'], y['cls'] = cx, cy
+    if draw(st.integers(0, 3)) == 0:
+        x['via'] = draw(st.sampled_from(VIAS))      # x has a history: hashed source -> mutable copy -> in-place edit -> frozen
+    if draw(st.integers(0, 7)) == 0:
+        y['via'] = draw(st.sampled_from(VIAS))
     return {'x': x, 'y': y, 'rel': rel}
 
 
